@@ -64,6 +64,7 @@ def gen_cases(ck):
                       "kmin": [1, 3, 3][int(ck.rng.integers(3))], "kmax": [15, 15, 8][int(ck.rng.integers(3))],
                       "angle": float(ck.rng.uniform(0, 6.28)), "scale": float(10.0 ** ck.rng.uniform(-1, 1)),
                       "p_rev": float(ck.rng.choice([0.0, 0.5, 1.0])), "shifts": True, "relabel": bool(ck.rng.integers(2)),
+                      "shuffle_cells": bool(i % 2), "variant": 1,
                       "tensions": ["maxwell", "random", "inferred"][int(ck.rng.integers(3))]})
     return cases
 
